@@ -127,15 +127,31 @@ class Analysis:
 
 
 def find_point(history, x):
-    """Index of the recorded point equal to ``x`` (exact comparison), or None."""
+    """Index of the recorded point *bitwise* equal to ``x``, or None.
+
+    Recorded points are identified by the bit pattern of their design vector (as the database keys are):
+    ``[-0.0]`` and ``[0.0]`` are two distinct recorded points although they compare equal by value.
+    """
     if x is None:
         return None
-    x = np.asarray(x)
+    x = np.ascontiguousarray(np.asarray(x, dtype=float))
+    xb = x.tobytes()
     for i, p in enumerate(history):
-        px = np.asarray(p["x"])
-        if px.shape == x.shape and np.array_equal(px, x):
+        px = np.ascontiguousarray(np.asarray(p["x"], dtype=float))
+        if px.shape == x.shape and px.tobytes() == xb:
             return i
     return None
+
+
+def value_twins(history):
+    """Pairs (i, j), i < j, of recorded points that are equal by value but bitwise distinct."""
+    out = []
+    for j in range(len(history)):
+        for i in range(j):
+            a, b = np.asarray(history[i]["x"], dtype=float), np.asarray(history[j]["x"], dtype=float)
+            if a.shape == b.shape and np.array_equal(a, b) and a.tobytes() != b.tobytes():
+                out.append((i, j))
+    return out
 
 
 def same_value(reported, recorded) -> bool:
